@@ -54,7 +54,9 @@ int main(int argc, char **argv)
     } else {
         /* encode . decode identity for all byte strings of length <= 2 and dense longer ones, both cases; outlen around 2n+1 */
         uint8_t in[300], back[300]; char out[700];
-        for (int n = 0; n <= 2; n++) for (long v = 0; v < (n == 0 ? 1 : n == 1 ? 256 : 65536); v++) for (int up = 0; up < 2; up++) {
+        for (int n = 0; n <= 2; n++) for (long v = 0; v < (n == 0 ? 1 : n == 1 ? 256 : 65536); v++) for (int fi = 0; fi < 8; fi++) {
+            /* documented: upper case if the flag is non-zero (any non-zero value, not only 1) */
+            static const int flags[8] = {0, 1, 2, 3, 16, 0x100, -1, (-2147483647 - 1)}; int up = flags[fi];
             in[0] = (uint8_t)v; in[1] = (uint8_t)(v >> 8);
             memset(out, 0x7f, sizeof out);
             int r = ascon_bytes_to_hex(out, 2 * n + 1, in, n, up); n_eval++;
